@@ -454,17 +454,25 @@ class ModelInputArrayBijector:
       scale_fn = lambda x, low=low, denom=denom: (np.log(x) - low) / denom
       unscale_fn = lambda x, low=low, denom=denom: np.exp(x * denom + low)
     elif spec.scale == pyvizier.ScaleType.REVERSE_LOG:
-      raw_sum = low + high
+      raw_low, raw_high = low, high
       low, high = np.log(low), np.log(high)
       denom = (high - low) or 1.0
       if denom < 1e-6:
         logging.warning('Unusually small range detected for %s', spec)
 
-      def scale_fn(x, low=low, raw_sum=raw_sum, denom=denom):
-        return 1.0 - (np.log(raw_sum - x) - low) / denom
+      # NOTE: `raw_low + raw_high - x` is evaluated as `(raw_high - x) +
+      # raw_low`. Forming `raw_low + raw_high` first loses `raw_low` when it is
+      # below the resolution of `raw_high`, and then `x == raw_high` is mapped
+      # to `1 - log(0) = inf` instead of 1.
+      def scale_fn(
+          x, low=low, raw_low=raw_low, raw_high=raw_high, denom=denom
+      ):
+        return 1.0 - (np.log((raw_high - x) + raw_low) - low) / denom
 
-      def unscale_fn(x, high=high, raw_sum=raw_sum):
-        return raw_sum - np.exp(high - denom * x)
+      def unscale_fn(
+          x, high=high, raw_low=raw_low, raw_high=raw_high, denom=denom
+      ):
+        return raw_high - (np.exp(high - denom * x) - raw_low)
 
     else:
       if not (spec.scale == pyvizier.ScaleType.LINEAR or spec.scale is None):
